@@ -18,16 +18,17 @@ import (
 // rest afterwards (each must arrive exactly once, in order, with an equal payload).
 
 type EvCase struct {
-	ID     int    `json:"id"`
-	Buffer int    `json:"buffer"` // last-N buffer of the event
-	Pre    int    `json:"pre"`    // published before the subscription
-	Post   int    `json:"post"`   // published afterwards
-	Subs   int    `json:"subs"`   // subscribers on node A
-	Rel    string `json:"rel"`    // link | monitor | mixed
-	Pool   int    `json:"pool"`
-	Chunk  int    `json:"chunk"`
-	Size   int    `json:"size"` // payload size
-	End    string `json:"end"`  // "" | unregister | kill : what happens to the event at the end
+	ID      int    `json:"id"`
+	Buffer  int    `json:"buffer"` // last-N buffer of the event
+	Pre     int    `json:"pre"`    // published before the subscription
+	Post    int    `json:"post"`   // published afterwards
+	Subs    int    `json:"subs"`   // subscribers on node A
+	Rel     string `json:"rel"`    // link | monitor | mixed
+	Pool    int    `json:"pool"`
+	Chunk   int    `json:"chunk"`
+	Size    int    `json:"size"` // payload size
+	End     string `json:"end"`  // "" | unregister | kill : what happens to the event at the end
+	Stagger bool   `json:"stagger"`
 }
 
 type evSub struct {
@@ -110,8 +111,12 @@ func (r *DRunner) RunEvents(c *EvCase) error {
 	if pool < 1 {
 		pool = 2
 	}
-	p, err := StartPair(NodeOpts{Name: "ea" + tag + "@localhost", Cookie: "ck", PoolSize: pool, Flags: netFlags},
-		NodeOpts{Name: "eb" + tag + "@localhost", Cookie: "ck", PoolSize: pool, Flags: netFlags})
+	gap := time.Duration(0)
+	if c.Stagger {
+		gap = 1100 * time.Millisecond
+	}
+	p, err := StartPairStaggered(NodeOpts{Name: "ea" + tag + "@localhost", Cookie: "ck", PoolSize: pool, Flags: netFlags},
+		NodeOpts{Name: "eb" + tag + "@localhost", Cookie: "ck", PoolSize: pool, Flags: netFlags}, gap)
 	if err != nil {
 		return err
 	}
